@@ -70,6 +70,7 @@ func loopBlocks(fn *ssa.Function) map[*ssa.BasicBlock]bool {
 func c13Fanout(c *Ctx, p *Prog, m *Model) {
 	r := c.R
 	fanoutNoSelfCall(c, p, m, "R13.1")
+	asTargetUsedOnSuccess(c, p, "R13.3")
 	lw := p.Method(p.Slog, "LWs", "Write")
 	if lw == nil {
 		r.Unk("R13.1", "fanout:LWs.Write", "-", "LWs.Write not found")
